@@ -34,9 +34,12 @@ Op(o, j) == [o |-> o, j |-> j]
 Rep(x, n) == [i \in 1 .. n |-> x]
 Tails(n) == UNION {[1 .. m -> {Op("Scan", 0), Op("Err", 0), Op("Close", 0)}] : m \in 0 .. n}
 NObj(d) == Len(SelectSeq(d, LAMBDA it : it[1].k = "obj"))
+\* quick tier: every tail of length <= 1 and the two-call tails that ask Err or Scan after a stop
+QuickTails == Tails(1) \cup {<<Op("Scan", 0), Op("Err", 0)>>, <<Op("Close", 0), Op("Err", 0)>>, <<Op("Err", 0), Op("Scan", 0)>>,
+                             <<Op("Close", 0), Op("Scan", 0)>>}
 Histories(d, di) ==
-  LET tl == Tails(IF Big THEN 3 ELSE 2)
-      ks == 0 .. NObj(d) + 2
+  LET tl == IF Big THEN Tails(3) ELSE QuickTails
+      ks == 0 .. NObj(d) + (IF Big THEN 2 ELSE 1)
       arms == IF Big \/ di <= 3 THEN 1 .. Len(d) + 1 ELSE {1, Len(d) + 1}
   IN {Rep(Op("Scan", 0), k) \o stop \o t : k \in ks, stop \in {<< >>, <<Op("Close", 0)>>, <<Op("Cancel", 0)>>}, t \in tl}
      \cup {<<Op("CancelAt", j)>> \o Rep(Op("Scan", 0), k) \o t : j \in arms, k \in ks, t \in tl}
